@@ -945,7 +945,7 @@ func TestVerifC01(t *testing.T) {
 		// keep the time budget effective, since it is checked when a batch starts
 		workers = vx.Pick(6, 8)
 	}
-	var seq, skipped int64
+	var seq, skipped, lDone int64
 	shardI, shardN := vx.Shard()
 	maxBatches := 1 << 30
 	if v := os.Getenv("C01_MAXBATCHES"); v != "" { // debugging aid
@@ -971,12 +971,18 @@ func TestVerifC01(t *testing.T) {
 					continue
 				}
 				c01RunBatch(res, filepath.Join(scratch, fmt.Sprintf("b%d", k)), b, nil, false)
+				if strings.HasPrefix(b[0].Family, "L") {
+					atomic.AddInt64(&lDone, int64(len(b)))
+				}
 			}
 		}()
 	}
 	wg.Wait()
-	if skipped > 0 {
-		res.Count("programs_not_run_time_budget", skipped)
+	spaceL := c01CountL(sp)
+	res.Count("space_programs_"+sp.Name, spaceL)
+	res.Bound = fmt.Sprintf("K level %d complete; %s: %d of %d programs in size order", kLevel, sp.Name, atomic.LoadInt64(&lDone), spaceL)
+	if !res.Exhaustive {
+		res.Bound += " (stopped by the time budget or a noted problem)"
 	}
 	c01Finish(res)
 }
